@@ -14,8 +14,8 @@ META = {
         "batching, container kind)."
     ),
     "floors": {
-        "quick": {"evaluations": 50000, "mon.history": 50000, "mon.combine": 2000, "mon.unwritten": 30, "mon.insitu_entries": 2000, "mon.grid": 1000},
-        "thorough": {"evaluations": 1000000, "mon.history": 1000000, "mon.combine": 20000, "mon.insitu_entries": 20000},
+        "quick": {"evaluations": 50000, "mon.history": 50000, "mon.combine": 2000, "mon.unwritten": 30, "mon.insitu_entries": 2000, "mon.grid": 1000, "mon.held_handles": 1000},
+        "thorough": {"evaluations": 1000000, "mon.history": 1000000, "mon.combine": 20000, "mon.insitu_entries": 20000, "mon.grid": 20000, "mon.held_handles": 20000},
     },
     "exhaustive": {"quick": True, "thorough": True},
     "space": {
@@ -228,10 +228,15 @@ def check_combine(ctx, DP, h1, h2, merge, retention, comb):
 SHAPES = [sh for n in (1, 2, 3) for sh in itertools.product("LD", repeat=n)]
 
 
-def check_grid(ctx, DP, shape, merge, retention, ops):
+def check_grid(ctx, DP, shape, merge, retention, ops, held=()):
     """Cells of a table are independent: a multi-cell write history on a table of any List/Dict shape; after it the
-    WHOLE grid is read back through fresh proxies and every cell is judged against the model of its own history."""
-    case = {"kind": "grid", "shape": "".join(shape), "merge": merge, "retention": retention, "ops": [[list(k), v, t] for k, v, t in ops]}
+    WHOLE grid is read back through fresh proxies and every cell is judged against the model of its own history.
+
+    ``held``: (key, pre_read) pairs - handles ``t[i][j]`` obtained (and, with pre_read, inspected) BEFORE the writes and
+    kept; an op whose 4th element is true writes through the held handle of its cell, the others through fresh indexing.
+    At the end every held handle must read exactly like a fresh one (a handle is a view of the cell, not a snapshot)."""
+    case = {"kind": "grid", "shape": "".join(shape), "merge": merge, "retention": retention, "ops": [[list(op[0])] + list(op[1:]) for op in ops],
+            "held": [[list(k), bool(r)] for k, r in held]}
     mp = getattr(DP.MergePolicy, merge)
     rp = getattr(DP.RetentionPolicy, retention)
     dims = tuple(DP.ListDimension(3) if c == "L" else DP.DictDimension() for c in shape)
@@ -244,10 +249,19 @@ def check_grid(ctx, DP, shape, merge, retention, ops):
                 x = x[k]
             return x
 
-        hist = {}
-        for key, v, tg in ops:
+        handles = {}
+        for key, pre in held:
             key = tuple(key)
-            cell(key).update(DP.Candidate(v, tg))
+            handles[key] = cell(key)
+            if pre:
+                first = read_entry(handles[key])
+                for msg in judge(first, [], merge == "MIN", retention):
+                    ctx.viol("C16.grid", dict(case, cell=list(key)), f"unwritten cell {list(key)} of a fresh {''.join(shape)} table: {msg}")
+        hist = {}
+        for op in ops:
+            key, v, tg = tuple(op[0]), op[1], op[2]
+            via_held = len(op) > 3 and op[3] and key in handles
+            (handles[key] if via_held else cell(key)).update(DP.Candidate(v, tg))
             hist.setdefault(key, []).append((v, tg))
         keys = list(itertools.product(range(3), repeat=len(shape)))
         nbad = 0
@@ -259,9 +273,14 @@ def check_grid(ctx, DP, shape, merge, retention, ops):
                 break
             if nbad:
                 break
+        for key, h in handles.items():
+            ctx.count("mon.held_handles")
+            for msg in judge(read_entry(h), hist.get(key, []), merge == "MIN", retention):
+                ctx.viol("C16.grid", dict(case, cell=list(key)), f"handle of cell {list(key)} of a {''.join(shape)} table obtained before the writes: {msg}")
+                break
         ctx.count("evaluations")
         ctx.count("mon.grid")
-        ctx.sig(("grid", "".join(shape), merge, retention, len(hist)), len(hist) >= 2)
+        ctx.sig(("grid", "".join(shape), merge, retention, len(hist), len(handles)), len(hist) >= 2)
         if len(hist) >= 3:
             ctx.sample(case)
     except Exception as exc:  # noqa: BLE001
@@ -439,8 +458,12 @@ def run(ctx, spec):
     for k in range(120 if ctx.tier == "quick" else 2500):
         shape = SHAPES[(k + spec["i"]) % len(SHAPES)]
         merge, retention = policies[(k // len(SHAPES)) % len(policies)]
-        ops = [(tuple(rng.randrange(3) for _ in shape), rng.choice(VALUES), rng.choice(TAGS)) for _ in range(rng.randint(1, 8))]
-        check_grid(ctx, DP, shape, merge, retention, ops)
+        ops = [(tuple(rng.randrange(3) for _ in shape), rng.choice(VALUES), rng.choice(TAGS), rng.random() < 0.4) for _ in range(rng.randint(1, 8))]
+        held = []
+        if k % 2:
+            cells = sorted({op[0] for op in ops}) + [tuple(rng.randrange(3) for _ in shape)]
+            held = [(c, rng.random() < 0.6) for c in cells if rng.random() < 0.7]
+        check_grid(ctx, DP, shape, merge, retention, ops, held)
     # combine where the operands are table cells (proxies), possibly never written, and Table.entry(value, infos)
     for k in range(150 if ctx.tier == "quick" else 1500):
         merge, retention = rng.choice(policies)
@@ -478,7 +501,8 @@ def replay(ctx, case):
         hist = [tuple(tuple(x) if isinstance(x, list) else x for x in h) for h in case["history"]]
         check_history(ctx, DP, hist, tuple(case["batches"]), case["merge"], case["retention"], case["container"])
     elif case["kind"] == "grid":
-        check_grid(ctx, DP, tuple(case["shape"]), case["merge"], case["retention"], [(tuple(k), v, t) for k, v, t in case["ops"]])
+        check_grid(ctx, DP, tuple(case["shape"]), case["merge"], case["retention"], [tuple([tuple(op[0])] + list(op[1:])) for op in case["ops"]],
+                   [(tuple(k), r) for k, r in case.get("held", [])])
     elif case["kind"] == "proxy_combine":
         check_proxy_combine(ctx, DP, [tuple(h) for h in case["h1"]], [tuple(h) for h in case["h2"]], case["merge"], case["retention"], case["comb"], case["k"])
     elif case["kind"] == "combine":
